@@ -370,6 +370,13 @@ def partitions_in_order(rng, nfiles):
 # ---------------------------------------------------------------- rendering / parsing
 def render_case(cs, runs):
     """runs: [(label, snapevery, [(flags, [fileidx...])...])]"""
+    labels = [l for l, _, _ in runs]
+    if len(set(labels)) != len(labels):
+        raise ValueError("duplicate run labels in set %s: %s" % (cs.name, labels))
+    for _, _, steps in runs:
+        for _, files in steps:
+            if any(f < 0 or f >= len(cs.files) for f in files):
+                raise ValueError("schedule of set %s names a capture that does not exist: %s" % (cs.name, steps))
     L = ["CASE " + cs.name]
     for f in cs.files:
         L.append("F " + f)
